@@ -157,9 +157,11 @@ package smtp
 // are the secret-carrying commands. The redaction window is c.authIsActive.
 //@ func smtp.Client.cmd (expectCode, format, args) (code, msg, err)
 //@   requires[C16:window] c != nil && (kind(format) == 13 ==> c.authIsActive || c.logAuthData)
-//@ at smtp.Client.cmd smtp.Client.debugLog#1 before assert[C16:command-redacted] c.authIsActive ==> len(logMsg) == 1 && unboxstr(logMsg[0]) == "<SMTP auth data redacted>" && logFmt == "%s"
+//@ pred redacted(b ref) = unboxstr(b) == "<SMTP auth data redacted>"
+//@ func smtp.Client.debugLog (d, f, a)
+//@   requires[C16:wf] c != nil
+//@   requires[C16:nothing-secret-in-window] c.authIsActive ==> (len(a) == 1 && redacted(a[0]) && f == "%s") || (len(a) == 2 && d == maillog.DirServerToClient && istype(a[0], "int") && (redacted(a[1]) || unboxint(a[0]) < 300 || unboxint(a[0]) > 400))
 //@ at smtp.Client.cmd smtp.Client.debugLog#1 before assert[C16:command-logged-outside-window] !c.authIsActive ==> logMsg == args && logFmt == format
-//@ at smtp.Client.cmd smtp.Client.debugLog#2 before assert[C16:reply-redacted] c.authIsActive && code >= 300 && code <= 400 ==> len(logMsg) == 2 && unboxstr(logMsg[1]) == "<SMTP auth data redacted>"
 //@ func smtp.Client.Auth$1
 //@   ensures[C16:window-closed] !c.logAuthData ==> !c.authIsActive
 //@ func smtp.Client.Auth
